@@ -246,6 +246,7 @@ func runC05Round(cfg c05Cfg) c05Result {
 						bad("reader: Get(%s) returned generation %d, but the key's generations during the call were %d..%d", c05Key(i), g, lo, hi)
 					}
 				case 4:
+					a.AllocStats() // takes all three allocator locks: must not deadlock against a version being reclaimed
 					cnt, _, err := a.GetTotals()
 					mi, err2 := a.MinItem(true)
 					ma, err3 := a.MaxItem(false)
